@@ -48,6 +48,42 @@ let c11_spec c =
   let hit q = sbool (str_eqb (nf q) p) in
   L [L [A "path"; sstr p]; L [A "match"; hit dec]; L [A "serve"; hit (if enc then esc else dec)]]
 
+(* ---------------- C08 ---------------- *)
+(* case: (c08 (script n ...) (((pre ops) (post ops)) ...)) ; handler i calls Next between pre and post *)
+let wop = function
+  | L [A "st"; z] -> WSetStatus (z_of_int (int z))
+  | L [A "hd"; k; v] -> WSetHeader (str k, str v)
+  | L [A "wr"; b] -> WWrite (str b)
+  | L [A "fl"] -> WFlush
+  | L [A "he"; m; c] -> WHttpError (str m, z_of_int (int c))
+  | L [A "rd"; u; c] -> WRedirect (str u, z_of_int (int c))
+  | L [A "ob"] -> WObs
+  | x -> failwith ("bad writer op " ^ to_string x)
+let swev = function
+  | WH c -> L [A "wh"; sint (int_of_z c)]
+  | W b -> L [A "w"; sstr b]
+  | F -> L [A "f"]
+let c08_case = function
+  | L [A "c08"; L sc; L hs] ->
+    let hs = List.map (function L [L pre; L post] -> (List.map wop pre, List.map wop post) | x -> failwith ("c08: bad handler " ^ to_string x)) hs in
+    let ops = List.concat (List.map fst hs) @ List.concat (List.rev_map snd hs) in
+    (List.map nat sc, ops)
+  | x -> failwith ("c08: bad case " ^ to_string x)
+let c08_model c =
+  let (sc, ops) = c08_case c in
+  let w = wrequest sc ops in
+  L [L (A "log" :: List.map swev w.log); L (A "obs" :: List.map (fun (s, l) -> L [sint (int_of_z s); sint (int_of_z l)]) w.obs)]
+let c08_judge c obs =
+  let (sc, ops) = c08_case c in
+  let expect = L (A "log" :: List.map swev (WH (spec_status Z0 ops) :: spec_events sc ops)) in
+  match obs with
+  | L (l :: _) when to_string l = to_string expect -> "ok"
+  | L (L (A "log" :: evs) :: _) ->
+    let nwh = List.length (List.filter (function L [A "wh"; _] -> true | _ -> false) evs) in
+    let sigv = if nwh <> 1 then "commit-count" else (match evs with L [A "wh"; c] :: _ -> if to_string c <> string_of_int (int_of_z (spec_status Z0 ops)) then "commit-status" else "body-events" | _ -> "commit-not-first") in
+    "bad " ^ sigv ^ " expected=" ^ to_string expect
+  | _ -> "bad no-log expected=" ^ to_string expect
+
 (* judge by spec equality: the observation must be exactly what the spec function yields *)
 let judge_eq spec c obs =
   let e = to_string (spec c) in
@@ -56,10 +92,12 @@ let judge_eq spec c obs =
 let model_of = function
   | "C14" -> c14_model
   | "C11" -> c11_model
+  | "C08" -> c08_model
   | p -> failwith ("no model for " ^ p)
 let judge_of = function
   | "C14" -> judge_eq c14_spec
   | "C11" -> judge_eq c11_spec
+  | "C08" -> c08_judge
   | p -> failwith ("no judge for " ^ p)
 
 let read_lines ic = let rec go acc = match input_line ic with l -> go (l :: acc) | exception End_of_file -> List.rev acc in go []
